@@ -84,7 +84,7 @@ theorem wkInv_emit {c : Ctl.State (Load.State τ) τ} {k : Nat} {w w' : Wk τ} (
     simp [(hown e he).2]
   have hinr : inboxRuns w' = inboxRuns w := by simp [inboxRuns, hinbox]
   refine ⟨hlocal.loopCb, hlocal.running, hlocal.have1, hlocal.init0, hlocal.early, ?_, fun _ => trivial, ?_, ?_, ?_, ?_, ?_, ?_, ?_, ?_, ?_,
-    h.inactiveDown, ?_, ?_, ?_, ?_, ?_, h.keysActive, ?_⟩
+    h.inactiveDown, ?_, ?_, ?_, ?_, ?_, ?_, ?_, h.keysActive, ?_⟩
   · intro _ hb; exact absurd hb hphase'
   · rw [hinbox]; exact h.inboxK
   · rw [hposted]; exact h.ownP
@@ -106,6 +106,8 @@ theorem wkInv_emit {c : Ctl.State (Load.State τ) τ} {k : Nat} {w w' : Wk τ} (
   · rw [hposted]; exact h.notice2
   · rw [hposted]; exact h.noticeDown
   · rw [hposted]; exact h.inactive
+  · rw [hposted]; exact h.noticeLast
+  · intro hb; exact absurd hb hphase'
   · intro hal hs
     exact hshut (h.shut (by rw [← ha']; exact hal) hs)
   · intro hk hsd _ hr
@@ -164,7 +166,7 @@ theorem boot_inv {c : Ctl.State (Load.State τ) τ} {k : Nat} {w : Wk τ} (h : W
     simp [flight, hp, List.filterMap_append, ho, evOf]
   have he := h.early (Or.inl hb)
   refine ⟨?_, h.running, h.have1, h.init0, fun _ => he, ?_, fun _ => trivial, h.inboxK, h.ownP, ?_, ?_, h.notBroken, ?_, h.notice2,
-    h.noticeDown, h.inactive, h.inactiveDown, h.shut, ?_, ?_, ?_, ?_, h.keysActive, ?_⟩
+    h.noticeDown, h.inactive, h.inactiveDown, h.noticeLast, ?_, h.shut, ?_, ?_, ?_, ?_, h.keysActive, ?_⟩
   · intro hh; cases hh
   · intro _ hh; cases hh
   · simp only [List.filterMap_append]
@@ -177,6 +179,7 @@ theorem boot_inv {c : Ctl.State (Load.State τ) τ} {k : Nat} {w : Wk τ} (h : W
     · exact h.evPlain m hm
     · simp at hm; subst hm; simp [plainMsg, isNotice]
   · intro _ _; exact Or.inl ⟨ha, by simp⟩
+  · intro hh; cases hh
   · intro _ _ _ hr
     rw [hfl] at hr; simp [isReady] at hr
   · intro _; rw [hfl]; rfl
